@@ -181,8 +181,10 @@ class FakeTRX(Transceiver):
 	# Path loss simulation: burst dropping
 	# Returns: True - drop, False - keep
 	def sim_burst_drop(self, msg):
-		# Check if dropping is required
-		if self.burst_drop_amount == 0:
+		# Check if dropping is required (a FAKE_DROP command handled
+		# by the other thread while a burst is being dropped may leave
+		# the amount below zero)
+		if self.burst_drop_amount <= 0:
 			return False
 
 		if msg.fn % self.burst_drop_period == 0:
